@@ -27,9 +27,11 @@ IMPL_FULL = [
     ("Buffer", "MC_buffer_live.cfg"),
     # a room check followed by a plain send is harmless for ONE sender (the mutation needs several, see MUT_C04)
     ("Workers", "MC_pbuf_fastpath1.cfg"),
-    # a generator that respects its context; and "a context error may be continued" on top of it, which the worker
-    # loop of GenerateParallel survives because it looks at its context before every call
+    # a generator that respects its context; and "a context error may be continued" on top of it, which a worker
+    # loop that looks at its own context before every call (LoopChecksCtx, not the code) would survive
     ("Generate", "MC_gen_ctx.cfg"), ("Generate", "MC_gen_ctx_continue.cfg"),
+    # the error check on every advance is harmless while no operand carries a recorded error (why plain merges look fine)
+    ("Merge", "MC_merge_errcheck_plain.cfg"),
 ]
 # seeded mutations of the Impl specs: the named invariant MUST be violated (non-vacuity self-tests)
 MUT_C01 = [
@@ -37,6 +39,8 @@ MUT_C01 = [
     ("Split", "MC_split_mut_noonce.cfg", "Conservation", "setup without Once: a second reader"),
     ("Merge", "MC_merge_mut_first.cfg", "EofComplete", "MergeIterators closes on the first source EOF"),
     ("Generate", "MC_gen_mut_first.cfg", "EofComplete", "GenerateParallel closes when the first worker is done"),
+    ("Merge", "MC_merge_mut_errcheck.cfg", "EofComplete", "the merged producer checks the operands' error stack on every advance: the merge ends when an "
+     "operand that finished normally but has a non-nil Close() is exhausted"),
 ]
 MUT_C04 = [
     ("Workers", "MC_mut_nodone.cfg", "AllDone", "a send that no longer selects on ctx.Done"),
@@ -46,7 +50,7 @@ MUT_C04 = [
     ("Split", "MC_split_abandon.cfg", "NoLeakOnPartialClose", "explored, not judged (DESIGN 5.0): abandoning the output whose context the reader uses"),
     ("Split", "MC_split_mut_eofclose.cfg", "NoDeadlock", "the pipe is closed only when the input reports io.EOF: a reader that ends with its context leaves the siblings blocked"),
     ("Workers", "MC_pbuf_mut_fastpath.cfg", "AllDone", "room check + plain send with several senders on one buffered pipe: the loser ignores its context"),
-    ("Generate", "MC_gen_mut_spin.cfg", "Settles", "a context error is continued and the worker loop has no context check of its own: the worker calls a context-respecting generator for ever"),
+    ("Generate", "MC_gen_mut_spin.cfg", "Settles", "a context error is continued (the worker loop has no context check of its own): the worker calls a context-respecting generator for ever"),
 ]
 
 
@@ -262,6 +266,9 @@ ASSUMPTIONS = [
     "sources are finite and never block (slices, pre-filled channels, maps); user functions return when released - "
     "cb=plain ignores the context, cb=ctx returns the context's error as soon as that context is cancelled; no user "
     "function fails on its own",
+    "an annotated operand / input (cfg.ann: Iterator.AddError before use, or the output of an upstream one-worker Map in "
+    "ContinueOnError mode whose one extra item fails) delivers all its items and finishes normally with a non-nil Close(): "
+    "nothing aborts such a run, so the delivered multiset is judged as for a plain input (the error itself is C03's)",
     "pbufg is assembled by the harness from the public parts Iterator.ParallelBuffer is made of (ProcessParallel over "
     "Blocking(chan).Send().Write, PostHook(buf.Close), IteratorWithHook closing the input), with a gate in front of the "
     "send and a capacity of its own: several senders on one buffered pipe whose arrival the schedule controls",
